@@ -161,7 +161,11 @@ class BodyMixin:
             b = self._get_body_string()
             if not b:
                 return None
-            return json_mod.loads(b)
+            try:
+                return json_mod.loads(b)
+            except (ValueError, RecursionError) as exc:
+                # invalid / truncated / not UTF-8 / too deeply nested JSON
+                self._raise(RequestError(f'Invalid JSON body: {exc!r}'))
         return None
 
     @cache_in('environ[ ombott.request.post ]', read_only=True)
